@@ -32,6 +32,12 @@ def run(ctx, res):
     F = ctx.F
     D = Disc(F)
     bs = {B.name: B for B in discover(F)}
+    # "the configured value" is what the public setter was given: the setter rules (frame / rebuild / collection idioms,
+    # C20) for the builders this property speaks about
+    from .c20 import setter_rules
+    _adts = sorted(B.adt for B in bs.values() if B.name in ('SdesBuilder', 'SdesChunkBuilder', 'SdesItemBuilder'))
+    _ns, _nc, _ = setter_rules(F, D, res, _adts)
+    res.floor("(setter, field) pairs of this property's builders checked", _ns, 8)
     n = 0
     B = bs.get("SdesItemBuilder")
     item_parse = D.by_signature(["&[u8]"], "Result<(sdes::SdesItem<", "sdes::")
